@@ -149,7 +149,8 @@ def annotation_models():
     mk = Annotation('Mk', 'Mark', None, (), (('level', 1),))
     mk2 = Annotation('Mk2', 'Mark', None, (), (('level', 2),))
     cyc = {'Ca': mkstruct('Ca', fields=[mkfield('b', N(R(None, 'Cb')))]),
-           'Cb': mkstruct('Cb', fields=[mkfield('a', N(R(None, 'Ca'))), mkfield('x', I32, anns=(AnnRef(None, 'Mk'),))]),
+           'Cb': mkstruct('Cb', fields=[mkfield('a', N(R(None, 'Ca'))), mkfield('x', I32, anns=(AnnRef(None, 'Mk'),)), mkfield('d', N(R(None, 'Cd')))]),
+           'Cd': mkstruct('Cd', fields=[mkfield('plain', I32)], doc='referred to by an annotated struct, but it reaches no annotation itself'),
            'Cc': mkstruct('Cc', fields=[mkfield('a', L(R(None, 'Ca'), None, None)), mkfield('y', N(STR), anns=(AnnRef(None, 'Mk2'),))])}
     rest = (mkunion('Cu', tags=[mktag('tv'), mktag('ta', R(None, 'Ca')), mktag('tc', N(R(None, 'Cc')))]), mkroute('rcy', 1, R(None, 'Ca'), R(None, 'Cu'), VOID))
     for perm in itertools.permutations(sorted(cyc)):
@@ -297,6 +298,11 @@ def deep_inheritance_models():
                         mkunion('Ua', tags=[mktag('a0'), mktag('a1', R(None, 'Lv3'))]),
                         mkunion('Ub', parent=R(None, 'Ua'), tags=[mktag('b0', I32)]),
                         mkunion('Uc', parent=R(None, 'Ub'), tags=[mktag('c0'), mktag('c1', N(R(None, 'Lv2')))]),
+                        mkunion('Ka', closed=True, tags=[mktag('k0'), mktag('k1', I32)]),
+                        mkunion('Kb', parent=R(None, 'Ka'), tags=[mktag('kb0')]),
+                        mkunion('Kc', parent=R(None, 'Kb'), tags=[mktag('kc0', STR)]),
+                        Alias('Al3', R(None, 'Lv3'), None, ()), Alias('AlS', STR, None, ()),
+                        mkstruct('Lists', fields=[mkfield('la', L(N(R(None, 'Al3')), None, None)), mkfield('ls', L(N(R(None, 'AlS')), None, None)), mkfield('k', N(R(None, 'Kc')))]),
                         mkroute('rleaf', 1, R(None, 'Lv3'), R(None, 'Uc'), R(None, 'Lv2'))]
             na = Namespace('na', (File(None, ('nb',) if split else (), tuple(sorted(defs_na, key=mm_def_key))),))
             nss = (na, Namespace('nb', (File(None, (), tuple(sorted(defs_nb, key=mm_def_key))),))) if split else (na,)
